@@ -1,7 +1,7 @@
 (* C13: define-then-delete is the identity; feature dependencies stay consistent
    (statements only; proofs in DepsProofs.v / DepsTables.v). *)
 From Coq Require Import ZArith List Bool Arith Lia.
-From CV Require Import C13.DepsModel C13.DepsProofs C13.DepsTables Gen.GenDeps.
+From CV Require Import C13.DepsModel C13.DepsProofs C13.DepsTables C13.ModuleModel C13.ModuleProofs Gen.GenDeps.
 Import ListNotations.
 
 (* ---- table theorems, re-checked on every run against the tables dumped from the binary ---- *)
@@ -193,3 +193,78 @@ Proof.
   exists [mkObj 1 (map (fun i => mkFstate true (Nat.eqb i 2) 2%Z []) (seq 0 38)) [] []].
   split; vm_compute; reflexivity.
 Qed.
+
+(* ==== run-time definition and deletion of objects (ModuleModel.v) ====
+   wf m (ModuleProofs.wfs): children and parents mirror each other with multiplicity; bias > variable > component >
+   atom group; a destroyed object refers to nothing and nothing refers to it; a component has one variable, an atom
+   group one component; only atom groups hold atoms.
+   acct m: the engine-side reference count of every atom = number of atom objects held by atom groups. *)
+
+(* For all tables, all fuel, ALL finite sequences over {define variable (any shape), define bias (on any numbers),
+   any colvardeps primitive on any object/feature/flags, delete bias, delete variable (with its biases), reset}:
+   links stay consistent and atoms stay accounted for. *)
+Theorem C13_links_and_atoms_stay_consistent : forall (T : tables) n (ps : list mop) m m',
+  wf m -> acct m -> m_run T n ps m = Some m' -> wf m' /\ acct m'.
+Proof. exact m_run_wf. Qed.
+Print Assumptions C13_links_and_atoms_stay_consistent.
+
+Theorem C13_initial_state_consistent : forall k, wf (m_empty k) /\ acct (m_empty k).
+Proof. exact empty_wf. Qed.
+Print Assumptions C13_initial_state_consistent.
+
+(* "no reference to a deleted object is ever used": in a consistent state whatever a live object lists among its
+   children or parents is a live object (a valid number), and a destroyed object is listed nowhere. *)
+Theorem C13_no_reference_to_deleted_object : forall m o x,
+  wf m -> alive_in (m_info m) o = true -> In x (children (m_objs m) o ++ parents (m_objs m) o) ->
+  alive_in (m_info m) x = true /\ x < length (m_objs m).
+Proof. intros m o x W. apply wfs_no_dangling. exact W. Qed.
+Print Assumptions C13_no_reference_to_deleted_object.
+
+Theorem C13_deleted_object_fully_unlinked : forall m o,
+  wf m -> alive_in (m_info m) o = false ->
+  children (m_objs m) o = [] /\ parents (m_objs m) o = [] /\ i_atoms (info_of (m_info m) o) = [].
+Proof. intros m o W. apply (wf_dead _ _ W). Qed.
+Print Assumptions C13_deleted_object_fully_unlinked.
+
+(* "atoms no longer used are released": an atom that no live atom group holds has reference count 0. *)
+Theorem C13_unused_atoms_released : forall m a,
+  wf m -> acct m -> a < length (m_atoms m) ->
+  (forall o, alive_in (m_info m) o = true -> ~ In a (i_atoms (info_of (m_info m) o))) ->
+  nth a (m_atoms m) 0%Z = 0%Z.
+Proof. exact unused_atom_released. Qed.
+Print Assumptions C13_unused_atoms_released.
+
+(* deletion deletes: the variable (bias) is destroyed, nothing is revived, classes and the number of objects stay *)
+Theorem C13_delete_colvar_destroys : forall (T : tables) n v m m',
+  wf m -> m_delete_colvar T n v m = Some m' ->
+  wf m' /\ mshrinks m m' /\
+  (alive_in (m_info m) v = true -> class (m_objs m) v = 1 -> alive_in (m_info m') v = false) /\
+  (acct m -> acct m').
+Proof. exact m_delete_colvar_wf. Qed.
+Print Assumptions C13_delete_colvar_destroys.
+
+Theorem C13_reset_leaves_no_variable_or_bias : forall (T : tables) n m m',
+  wf m -> m_reset T n m = Some m' ->
+  wf m' /\ mshrinks m m' /\ (forall o, alive_in (m_info m') o = true -> 2 <= class (m_objs m') o) /\ (acct m -> acct m').
+Proof. exact m_reset_wf. Qed.
+Print Assumptions C13_reset_leaves_no_variable_or_bias.
+
+(* non-vacuity on the real tables: two variables (the first with two atom groups sharing atom 1 with the second), a bias
+   on both, everything activated; deleting the first variable destroys it, its component, its groups and the bias, keeps
+   the second variable (unlinked from the bias), and leaves atom 1 with one reference, atoms 2 and 3 with none *)
+Definition ex_avail (k : nat) : list bool := repeat true k.
+Definition ex_ops : list mop :=
+  [MNewColvar (ex_avail 38) [(ex_avail 18, [(ex_avail 11, [1; 2]); (ex_avail 11, [3])])];
+   MNewColvar (ex_avail 38) [(ex_avail 18, [(ex_avail 11, [1])])];
+   MNewBias (ex_avail 17) [0; 4];
+   MPrim (OpEnable 0 0 false true false); MPrim (OpEnable 4 0 false true false); MPrim (OpEnable 7 0 false true false);
+   MDeleteColvar 0].
+
+Example C13_example_define_delete : exists m',
+  m_run gen_tables 40 ex_ops (m_empty 5) = Some m' /\
+  map i_alive (m_info m') = [false; false; false; false; true; true; true; false] /\
+  m_atoms m' = [0; 1; 0; 0; 0]%Z /\
+  parents (m_objs m') 4 = [] /\
+  (* the surviving variable has lost "active" with its last bias: the known finding variable-deactivated-when-last-bias-deleted *)
+  is_enabled (m_objs m') 4 0 = false.
+Proof. eexists. split; [vm_compute; reflexivity|]. repeat split. Qed.
